@@ -1,4 +1,5 @@
 import Faithful.Lib.LedgerProofs
+import Faithful.Lib.LedgerLimits
 /-! Property C11 — the hand-written IPLD node decoders agree with the schema-driven reference decoder.
 
 All statements are about the definitions the driver executes (`Ledger.Fast.decode`, `Ledger.Ref.decode`,
@@ -26,6 +27,21 @@ theorem fast_agrees (n : Node) (wf : n.WF) :
     exact ⟨⟨_, fast_rewards x wf, by simp [obs, obs_fast_normDF]⟩, ⟨_, ref_rewards x wf, by simp [obs, obs_ref_normDF]⟩⟩
   | dataFrame x =>
     exact ⟨⟨_, fast_dataFrame x wf, by simp [obs, obs_fast_normDF]⟩, ⟨_, ref_dataFrame x wf, by simp [obs, obs_ref_normDF]⟩⟩
+
+/-- the byte parser in front of the hand-written decoders (fxamacker/cbor with the element limit of the proposed
+    repair, 2^31-1; 32 nesting levels) accepts the encoding of every typed value whose lists stay within that limit:
+    reference encodings have no maps and nest at most 4 deep -/
+theorem parser_limits (n : Node) (h : n.maxList ≤ Fast.maxArrayElements) :
+    Fast.parserAccepts (Cbor.stats 64 (Ref.encode n)) = true := by
+  have b := bd_encode 64 n Fast.maxArrayElements (by decide) h
+  have hd : (Cbor.stats 64 (Ref.encode n)).depth ≤ Fast.maxNestedLevels := Nat.le_trans b.depth (by decide)
+  simp [Fast.parserAccepts, b.arr, b.map, hd]
+
+/-- agreement including the parser limits: what the driver executes for the hand-written path -/
+theorem fast_agrees_limited (n : Node) (wf : n.WF) (h : n.maxList ≤ Fast.maxArrayElements) :
+    ∃ n', Fast.decodeLimited n.kind (Ref.encode n) = .ok n' ∧ obs n' = obs n := by
+  obtain ⟨n', hn, ho⟩ := (fast_agrees n wf).1
+  exact ⟨n', by simp [Fast.decodeLimited, parser_limits n h, hn], ho⟩
 
 /-- the two decoders agree with each other (the form the harness oracle checks) -/
 theorem fast_eq_classic (n : Node) (wf : n.WF) :
